@@ -412,6 +412,24 @@ def twins(rep: Report, prog: Program) -> None:
                 rep.instance("R12.1", f"method-missing|{a}.{m}")
                 rep.fail("R12.1", f"method-missing|{a.split(':')[1]}.{m}", f"method `{m}` exists in only one of {a} / {b}", where=f"{ca.module.relpath}:{ca.node.lineno}", function=a)
     for qa, qb in pairs:
+        if qa not in prog.funcs and qb not in prog.funcs:
+            # neither twin exists under its old name: merged into one shared helper elsewhere (then there is nothing to
+            # compare) or dissolved into the callers (then the callers' skeletons, compared below, contain its effects)
+            try:
+                same = prog.func(qa) is prog.func(qb)
+            except AnalysisError:
+                same = None
+                tail = qa.split(":", 1)[1]
+                moved = sorted((f for q, f in prog.funcs.items() if q.split(":", 1)[1] == tail), key=lambda f: ("async" in f.module.name, f.qual))
+                if len(moved) == 2 and tail == qb.split(":", 1)[1]:
+                    pairs.append((moved[0].qual, moved[1].qual))  # both moved, still a pair: compared like any other
+                    continue
+            rep.instance("R12.1", f"{qa.split(':')[1]}~{'shared' if same else 'dissolved'}")
+            if same is False:
+                rep.fail("R12.1", f"{qa.split(':')[1]}|twins-moved-apart", f"twins {qa} / {qb} were moved and can no longer be paired", where=prog.func(qa).where(), function=qa)
+            else:
+                rep.ok("R12.1")
+            continue
         if qb not in prog.funcs and qa in prog.funcs:
             # the async module no longer has its own copy: fine if the name there is the sync function itself (shared)
             mb, nb = qb.split(":")
@@ -588,6 +606,11 @@ def run(rep: Report, prog: Program, tier: str) -> None:
     rep.rule("R12.6", "@retry always installs the policy: the inner decorator returns its sync wrapper for plain functions and its async wrapper for coroutine functions on every path - never the undecorated function - whatever the configuration")
     decorator_wraps(rep, "R12.6", prog)
     rep.floor("R12.6", 3)
+    rep.rule("R12.7", "the sync attempt timeout does not change how often the operation is invoked: each timed attempt gets an executor of its own (= C13 R13.5 worker-pool clause), as each async attempt gets its own wait_for")
+    from .c13 import worker_pool
+
+    worker_pool(rep, "R12.7", prog)
+    rep.floor("R12.7", 1)
     twins(rep, prog)
     call_vs_execute(rep, prog, tier)
     # Policy level: call() and execute() make the same breaker record for the same ending
